@@ -452,25 +452,20 @@ Theorem C02_reserved_keys_not_refused_refuted :
 Proof. exact reserved_keys_not_refused. Qed.
 Print Assumptions C02_reserved_keys_not_refused_refuted.
 
-(* PARTIAL (tree level): the full statement would be "for every protocol-following program the last store of thread th
-   reads back as mkS loom pid tid (Some app) <rank set by th> <CPUs registered by th, in order>", which with C15's merge
-   (Emu/MetaDefs.build) would give per-loom completeness of ovni.loom_cpus.  Proved here: the step from the tree of a
-   live thread to the store of ovni_thread_free, under the side conditions that ovni.rank / nranks / loom_cpus are still
-   unset; that these hold for every live thread of a protocol-following program (only ovni_thread_free sets them, user
-   attributes cannot: C02_user_attr_keeps_reserved) is NOT carried through the run invariant of C02_metadata_complete.
-   Per-loom completeness on the real files is judged by the Python decider of the rtmeta family. *)
-Theorem C02_thread_free_stream_meta_partial : forall c app loom pid t tid,
-  holds (t_meta t) (core c app loom pid tid) -> has_req (t_meta t) ->
-  pget (t_meta t) [k_ovni; k_rank] = None -> pget (t_meta t) [k_ovni; k_nranks] = None ->
-  pget (t_meta t) [k_ovni; k_loom_cpus] = None ->
-  exists fs', free_tree t = Some fs' /\
-    to_stream_meta (jobj fs') =
-    Some (MetaDefs.mkS loom pid tid (Some app)
-            (match t_rank t with Some (r, _) => Some r | None => None end)
-            (match t_rank t with Some (_, n) => Some n | None => None end)
-            (match t_cpus t with [] => None | _ :: _ => Some (t_cpus t) end)).
-Proof. exact free_tree_stream_meta. Qed.
-Print Assumptions C02_thread_free_stream_meta_partial.
+(* Every final tree reads back, through the emulator's look-ups (to_stream_meta: system.c / loom.c / proc.c / thread.c), as
+   the record the calls determine: for EVERY protocol-following program (any number of threads, any interleaving) and every
+   ovni_thread_init(tid) of slot th, the last stream.json of tid is  smeta loom pid tid app (rank_set p th) (cpus_added p th):
+   loom, pid, app of ovni_proc_init, the rank THIS thread set last (ovni_proc_set_rank is thread-local), the CPUs THIS thread
+   registered, in call order (no "ovni.loom_cpus" member when it registered none).  expected_metas p lists these records in
+   the order of the init calls; final_metas reads them from the files.  (This replaces the tree-level
+   C02_thread_free_stream_meta_partial: the side conditions "rank / nranks / loom_cpus unset while the thread is live" are
+   now part of the run invariant.) *)
+Theorem C02_metadata_stream_metas : forall c p evs sf,
+  VersionDefs.version_parse (Some (c_model_version c)) <> None ->
+  meta_conformant p = true -> run c p = (evs, sf) -> completed evs = true ->
+  final_metas p evs = Some (expected_metas p).
+Proof. exact metadata_stream_metas. Qed.
+Print Assumptions C02_metadata_stream_metas.
 
 (* non-vacuity: two threads of one process, interleaved; thread 0 registers CPU 0 and requires nosv, thread 1
    registers CPU 1, sets the rank, both set attributes (a dotted name with an empty component among them) and
@@ -521,3 +516,111 @@ Example C02_ex_abort_in_attr :
   meta_conformant p = true /\ stop_op p (fst (run ex_cfg p)) = Some (AttrSetStr [112; 46; 113] [121]).
 Proof. vm_compute. split; reflexivity. Qed.
 End Meta.
+
+(* ------------------------------------------------------------------------------------------------
+   The whole trace: one protocol-following program per process (Rt/RtMetaDefs.trace), and the emulator's metadata merge
+   Emu/MetaDefs.build (C15's model of system.c create_system / loom.c load_cpus, loom_init_end / proc.c load_appid,
+   load_rank, proc_init_end; tied to ovniemu by C15 and, on the real final files of this family, by lib/checks/c02.py).
+
+   trace_ok tr (Rt/RtMetaDefs.v) is what the documentation asks ACROSS threads and processes, on the records the call lists
+   determine: processes with the same loom and pid agree on the app id; no two threads share loom, pid and tid; the threads
+   of a process that set a rank set the same one and in a loom every process sets it or none; over all threads of a loom -
+   whichever registers what - the CPU indices are exactly 0..n-1 with n > 0, one phyid per index, one index per phyid.
+   Where the line is: a thread that registers no CPU is fine (no member is written); a loom in which nobody registers one,
+   a skipped index, one index with two phyids (or the converse), two ranks in one process, or a repeated (loom, pid, tid)
+   make the merge refuse the trace (C02_metadata_build_refuses). *)
+From OV Require Proofs.MetaBuildProofs Proofs.RtMetaBuildProofs.
+Module MetaTrace.
+Import RtMetaDefs RtMetaProofs MetaDefs MetaBuildProofs RtMetaBuildProofs.
+
+Theorem C02_metadata_builds_system : forall c tr,
+  VersionDefs.version_parse (Some (c_model_version c)) <> None ->
+  (forall p, In p tr -> meta_conformant p = true /\ completed (fst (RtMetaDefs.run c p)) = true) ->
+  trace_ok tr ->
+  (forall p, In p tr -> final_metas p (fst (RtMetaDefs.run c p)) = Some (expected_metas p)) /\
+  exists sys, build (trace_metas tr) = Ok sys /\
+    NoDup (loom_names sys) /\
+    (forall l, In l (loom_names sys) <-> loom_in (trace_metas tr) l) /\
+    (forall l ps cs, In (l, ps, cs) sys ->
+       (forall i ph, In (i, ph) cs <-> In (l, Some (i, ph)) (cpu_claims (trace_metas tr))) /\
+       NoDup (map (fun sp : sproc => fst (fst sp)) ps) /\
+       (forall pid, In pid (map (fun sp : sproc => fst (fst sp)) ps) <-> proc_in (trace_metas tr) (l, pid)) /\
+       (forall pid a ts, In (pid, a, ts) ps ->
+          (forall t, In t ts <-> In (l, pid, t) (keys (trace_metas tr))) /\
+          (forall a', In ((l, pid), a') (app_claims (trace_metas tr)) -> a' = a))).
+Proof. exact metadata_builds_system. Qed.
+Print Assumptions C02_metadata_builds_system.
+
+(* the accepting side of the merge on its own, for any metadata (not only what libovni writes): valid values and no
+   contradiction => a system; with C15_conflicts this makes `good` the exact line for the claims it mentions *)
+Theorem C02_merge_accepts_good_metadata : forall m, good m -> exists sys, build m = Ok sys.
+Proof. exact build_complete. Qed.
+Print Assumptions C02_merge_accepts_good_metadata.
+
+(* which thread registered which CPU, or carried the rank, does not matter (corollary of C15_union) *)
+Theorem C02_metadata_build_union : forall tr1 tr2, same_union (trace_metas tr1) (trace_metas tr2) ->
+  build (trace_metas tr1) = build (trace_metas tr2).
+Proof. exact metadata_build_union. Qed.
+Print Assumptions C02_metadata_build_union.
+
+Theorem C02_metadata_build_refuses : forall tr,
+  let m := trace_metas tr in
+  ((exists l i p q, In (l, Some (i, p)) (cpu_claims m) /\ In (l, Some (i, q)) (cpu_claims m) /\ p <> q) -> build m = Err) /\
+  ((exists l i j p, In (l, Some (i, p)) (cpu_claims m) /\ In (l, Some (j, p)) (cpu_claims m) /\ i <> j) -> build m = Err) /\
+  ((exists l, loom_in m l /\ forall e, ~ In (l, Some e) (cpu_claims m)) -> build m = Err) /\
+  ((exists l i p j, In (l, Some (i, p)) (cpu_claims m) /\ 0 <= j < i /\ forall q, ~ In (l, Some (j, q)) (cpu_claims m)) -> build m = Err) /\
+  ((exists k r1 n1 r2 n2, In (k, (r1, n1)) (rank_claims m) /\ In (k, (r2, n2)) (rank_claims m) /\ r1 <> r2) -> build m = Err) /\
+  (~ NoDup (keys m) -> build m = Err).
+Proof. exact metadata_build_refuses. Qed.
+Print Assumptions C02_metadata_build_refuses.
+
+(* non-vacuity: two processes on one loom; the second registers no CPU and each sets its rank; a third variant in which the
+   CPUs are registered by other threads gives the same system; a loom whose only thread registers nothing is refused *)
+Definition ex5_p1 : prog := Meta.ex4_prog.
+Definition ex5_p2 : prog :=
+  [(0%nat, ProcInit 1 ex_loom 200); (0%nat, ThreadInit 200); (0%nat, ProcSetRank 1 2); (0%nat, ThreadFree); (0%nat, ProcFini)].
+Definition ex5_p1' : prog :=
+  [(0%nat, ProcInit 1 ex_loom 100); (0%nat, ThreadInit 100); (1%nat, ThreadInit 101); (1%nat, ProcSetRank 0 2);
+   (0%nat, ThreadFree); (1%nat, ThreadFree); (0%nat, ProcFini)].
+Definition ex5_p2' : prog :=
+  [(0%nat, ProcInit 1 ex_loom 200); (0%nat, ThreadInit 200); (0%nat, AddCpu 1 1); (0%nat, ProcSetRank 1 2); (0%nat, AddCpu 0 0);
+   (0%nat, ThreadFree); (0%nat, ProcFini)].
+
+Example C02_ex5_builds :
+  meta_conformant ex5_p1 = true /\ meta_conformant ex5_p2 = true /\
+  final_metas ex5_p2 (fst (RtMetaDefs.run ex_cfg ex5_p2)) = Some (expected_metas ex5_p2) /\
+  build (trace_metas [ex5_p1; ex5_p2]) = Ok [(ex_loom, [(100, 1, [100; 101]); (200, 1, [200])], [(0, 0); (1, 1)])] /\
+  build (trace_metas [ex5_p2'; ex5_p1']) = build (trace_metas [ex5_p1; ex5_p2]) /\
+  build (trace_metas [ex5_p2]) = Err.
+Proof. vm_compute. repeat split. Qed.
+(* the hypotheses of C02_metadata_builds_system are satisfiable: trace_ok of the two-process trace *)
+Example C02_ex5_metas : trace_metas [ex5_p1; ex5_p2] =
+  [mkS ex_loom 100 100 (Some 1) None None (Some [(0, 0)]); mkS ex_loom 100 101 (Some 1) (Some 0) (Some 2) (Some [(1, 1)]);
+   mkS ex_loom 200 200 (Some 1) (Some 1) (Some 2) None].
+Proof. vm_compute. reflexivity. Qed.
+Example C02_ex5_trace_ok : trace_ok [ex5_p1; ex5_p2].
+Proof.
+  constructor; rewrite ?C02_ex5_metas.
+  - intros p q l pid a b [<-|[<-|[]]] [<-|[<-|[]]] E1 E2; vm_compute in E1, E2; congruence.
+  - vm_compute. repeat constructor; cbn [In]; intuition congruence.
+  - intros k x y X Y. vm_compute in X, Y. intuition congruence.
+  - intros l p q x (s1 & S1 & K1) (s2 & S2 & K2) X. vm_compute in X.
+    destruct S2 as [<-|[<-|[<-|[]]]]; vm_compute in K2; injection K2 as <- <-;
+      (eexists; vm_compute; (right; left; reflexivity) || (left; reflexivity)).
+  - intros l (s & S & <-). exists 2. split; [lia|].
+    assert (EL : s_loom s = ex_loom) by (destruct S as [<-|[<-|[<-|[]]]]; reflexivity). rewrite EL. split.
+    + intros i B. assert (C : i = 0 \/ i = 1) by lia. destruct C as [-> | ->]; eexists; vm_compute; [left|right; left]; reflexivity.
+    + intros i ph X. vm_compute in X. destruct X as [X|[X|[]]]; injection X as <- <-; lia.
+  - intros l i ph q X Y. vm_compute in X, Y. intuition congruence.
+  - intros l i j ph X Y. vm_compute in X, Y. intuition congruence.
+Qed.
+
+Example C02_ex5_by_theorem : exists sys, build (trace_metas [ex5_p1; ex5_p2]) = Ok sys /\ loom_names sys = [ex_loom].
+Proof.
+  destruct (C02_metadata_builds_system ex_cfg [ex5_p1; ex5_p2]) as (_ & sys & B & _).
+  - vm_compute. discriminate.
+  - intros p [<-|[<-|[]]]; vm_compute; split; reflexivity.
+  - exact C02_ex5_trace_ok.
+  - exists sys. split; [exact B|]. vm_compute in B. injection B as <-. reflexivity.
+Qed.
+End MetaTrace.
